@@ -1,27 +1,36 @@
 #!/bin/bash
-# usage: confirm_seed.sh <seed-dir> [demo-pkg-dir-relative]  -> prints a summary line; exit 0 iff all four outcomes hold
-# seed-dir holds patch.diff and demo_test.go (dropped into the package dir, default: repo root)
-S="$1"; PKG="${2:-.}"
+# usage: confirm_seed.sh <seed-dir> -> prints RESULT line; exit 0 iff: patch applies, builds, existing tests pass with it,
+# demo fails with it and passes without it. The demo test file is dropped into the package named by its 'package' clause.
+S="$1"
 export GOFLAGS=-mod=mod GOPROXY=off GOSUMDB=off GOTOOLCHAIN=local
-W=$(mktemp -d /tmp/cs.XXXXXX); rmdir "$W"
-git -C /repo worktree add --detach "$W" HEAD >/dev/null 2>&1 || { echo "worktree failed"; exit 2; }
+DEMO=$(ls "$S"/demo_test.go "$S"/*_test.go 2>/dev/null | head -1)
+[ -n "$DEMO" ] || { echo "RESULT $S no-demo"; exit 2; }
+for BASE in HEAD $(git -C /repo log --format=%h | tail -n +2); do
+  W=$(mktemp -d /tmp/cs.XXXXXX); rmdir "$W"
+  git -C /repo worktree add --detach "$W" "$BASE" >/dev/null 2>&1 || { echo "worktree failed"; exit 2; }
+  if (cd "$W" && git apply --check "$S/patch.diff" 2>/dev/null); then break; fi
+  git -C /repo worktree remove --force "$W" >/dev/null 2>&1; W=""
+done
+[ -n "$W" ] || { echo "RESULT $S patch-applies-nowhere"; exit 3; }
 cleanup() { git -C /repo worktree remove --force "$W" >/dev/null 2>&1; rm -rf "$W"; }
 trap cleanup EXIT
 cd "$W"
-DEMO=$(ls "$S"/*_test.go 2>/dev/null | head -1)
-[ -n "$DEMO" ] || { echo "RESULT $S no demo"; exit 2; }
+# package dir of the demo: from notes (path mentioned) or by package clause
+PK=$(grep -m1 '^package ' "$DEMO" | awk '{print $2}')
+PKG=.
+if [ "$PK" != "autodiff" ]; then
+  PKG=$(grep -rl --include=*.go "^package ${PK%_test}\$" . | grep -v _test.go | head -1 | xargs dirname)
+fi
 RUN=$(grep -o 'func Test[A-Za-z0-9_]*' "$DEMO" | sed 's/func //' | paste -sd'|')
 cp "$DEMO" "$PKG/zz_seed_demo_test.go"
-if go test -vet=off -count=1 -timeout 10m -run "^($RUN)\$" "./$PKG" >"$W/.demo_clean.log" 2>&1; then CLEAN=pass; else CLEAN=fail; fi
-if ! git apply "$S/patch.diff" 2>"$W/.apply.log"; then
-  if ! patch -p1 -s --no-backup-if-mismatch < "$S/patch.diff" >"$W/.apply.log" 2>&1; then echo "RESULT $S patch-does-not-apply"; exit 3; fi
-fi
+RACE=""; grep -qi "race" "$S/notes.md" 2>/dev/null && RACE="-race"
+if go test -vet=off -count=1 $RACE -timeout 10m -run "^($RUN)\$" "./$PKG" >"$W/.demo_clean.log" 2>&1; then CLEAN=pass; else CLEAN=fail; fi
+git apply "$S/patch.diff"
 if go build ./... >"$W/.build.log" 2>&1; then BUILD=ok; else BUILD=fail; fi
-if go test -vet=off -count=1 -timeout 10m -run "^($RUN)\$" "./$PKG" >"$W/.demo_mut.log" 2>&1; then MUT=pass; else MUT=fail; fi
+if go test -vet=off -count=1 $RACE -timeout 10m -run "^($RUN)\$" "./$PKG" >"$W/.demo_mut.log" 2>&1; then MUT=pass; else MUT=fail; fi
 rm -f "$PKG/zz_seed_demo_test.go"
 go test -vet=off -count=1 -timeout 25m ./... 2>&1 | grep -v "no test files" > "$W/.suite.log"
-NFAIL=$(grep -v "^ok" "$W/.suite.log" | grep -v "algorithm/adam" | grep -c "^FAIL\|^---\|panic")
+NFAIL=$(grep -v "algorithm/adam" "$W/.suite.log" | grep -c "^FAIL[[:space:]]\|^--- FAIL\|^panic")
 NOK=$(grep -c "^ok" "$W/.suite.log")
-echo "RESULT $S build=$BUILD demo_clean=$CLEAN demo_mutated=$MUT suite_ok_pkgs=$NOK suite_failures=$NFAIL"
-if [ "$NFAIL" != 0 ]; then grep -v "^ok" "$W/.suite.log" | grep -v adam | head -5; fi
+echo "RESULT $S base=$BASE pkg=$PKG build=$BUILD demo_clean=$CLEAN demo_mutated=$MUT suite_ok_pkgs=$NOK suite_failures=$NFAIL"
 [ "$BUILD" = ok ] && [ "$CLEAN" = pass ] && [ "$MUT" = fail ] && [ "$NFAIL" = 0 ] && [ "$NOK" -ge 31 ]
